@@ -63,7 +63,8 @@ strtoull(const char *nptr, char **endptr, int base)
 			c = *s++;
 	}
 	if ((base == 0 || base == 16) &&
-	    c == '0' && (*s == 'x' || *s == 'X')) {
+	    c == '0' && (*s == 'x' || *s == 'X') &&
+	    isxdigit((unsigned char) s[1])) {
 		c = s[1];
 		s += 2;
 		base = 16;
